@@ -7,8 +7,8 @@
 // multiples of 8, so distinct keys are disjoint words provided the bases are 8-aligned (T1).
 
 pub struct St {
-    pub regs: IMap<int, u64>,
-    pub mem: IMap<int, u64>,
+    pub regs: Tot,
+    pub mem: Tot,
     /// operands of the last CMP, None after any flag-clobbering instruction
     pub fl: Option<(u64, u64)>,
     /// false after a fault (#DE) or a misaligned call
@@ -63,10 +63,10 @@ pub uninterp spec fn havoc_mem(s: St, a: int) -> u64;
 /// everything else (caller-saved registers, flags, the red zone / stack below rsp).
 pub open spec fn call_model(s: St, name: Seq<char>) -> St {
     St {
-        regs: IMap::total(
+        regs: Tot::total(
             |r: int| if caller_saved(r) { havoc_reg(s, r) } else { s.regs[r] },
         ),
-        mem: IMap::total(
+        mem: Tot::total(
             |a: int| if a < s.regs[0] as int { havoc_mem(s, a) } else { s.mem[a] },
         ),
         fl: None,
